@@ -51,8 +51,7 @@ def step_term(s):
     if op == "commit":
         q = qterm(s.get("q") or [])
         if s.get("queued"):
-            b = "Batch %d %s %s %s" % (s["idx"], lst(ev(e) for e in s.get("evs") or []), lst(N(t) for t in s.get("close") or []),
-                                       lst(ev(e) for e in s.get("silent") or []))
+            b = "Batch %d %s %s" % (s["idx"], lst(ev(e) for e in s.get("evs") or []), lst(N(t) for t in s.get("close") or []))
             return "CStep (Some (LCommit (%s))) (XQ %s)" % (b, q)
         return "CStep None (XQ %s)" % q
     if op == "restore":
@@ -103,7 +102,7 @@ def shard_text(cases):
 
 
 def run_shards(shards, jobs=8, timeout=900):
-    """-> list of (ok, [(diag, step_ok_breaks, events_ok_breaks)] per case, raw)"""
+    """-> list of (ok, [(diag, step_ok_breaks)] per case, raw)"""
     os.makedirs(vlib.GEN, exist_ok=True)
     paths = []
     for k, cs in enumerate(shards):
@@ -122,7 +121,7 @@ def run_shards(shards, jobs=8, timeout=900):
         m = re.search(r"R\s*=\s*\[(.*?)\]\s*:\s*list", flat)
         if not m:
             return (False, None, out[-3000:])
-        trip = [tuple(int(x) for x in t) for t in re.findall(r"\(\s*(\d+)\s*,\s*(\d+)\s*,\s*(\d+)\s*\)", m.group(1))]
+        trip = [tuple(int(x) for x in t) for t in re.findall(r"\(\s*(\d+)\s*,\s*(\d+)\s*\)", m.group(1))]
         return (True, trip, "")
 
     with ThreadPoolExecutor(max_workers=jobs) as ex:
@@ -183,16 +182,14 @@ def run(ctx):
     info, ok = vlib.proof_stage(ctx, PROP_FILE, ["Run/C11.v"])
     cov = dict(info)
     cov["trusted_base"] = vlib.STD_TRUSTED + [
-        "environment hypotheses of the theorems (Stream.Model: step_ok, events_ok, restore_ok, gapfree_ok): Raft indexes grow strictly; a query's index covers every commit that touched its subject; the events of a commit describe its whole effect on the query results; each is checked on every generated step (Run.C11.breaks_from) and by the Go oracle, and each is shown necessary by a kernel-checked witness that the real code reproduces",
-        "the state store is modelled as keyed rows (topic, subject, instance) changed by the abstract events the harness reads from the real batch; catalog_events.go / config_entry_events.go are not modelled line by line: their output is compared with the change of CheckServiceNodes / CheckConnectServiceNodes / ConfigEntry results after every commit (oracle kind events-do-not-match-state-change, and the model's store against every query result)",
+        "environment hypothesis of the theorems (Stream.Model.step_ok): Raft indexes grow strictly; a query's index covers every commit that touched its subject and is not ahead of the raft index; a restored store has one row per key. Checked on every generated step (Run.C11.breaks_from); its query-index clause is broken by the real state store in one class (open known finding query-index-behind-content, C06 territory) and shown necessary by C11_view_is_some_committed_state_refuted",
+        "the state store is modelled as keyed rows (topic, subject, instance) changed by the abstract events the harness reads from the real batch; catalog_events.go / config_entry_events.go are not modelled line by line: the model's store (events applied) is compared with CheckServiceNodes / CheckConnectServiceNodes / ConfigEntry results after every commit, and the oracle (kind events-do-not-match-state-change) compares the events with the change of those results",
         "values are interned canonical JSON of structs.CheckServiceNode / ServiceConfigEntry (empty fields dropped, checks sorted); projected away: ServiceConfigEntry.Kind (pbconfigentry.ConfigEntryToStructs leaves it empty; GetKind() is constant)",
-        "modelled, not verified: lock-free list memory ordering (atomic.Value), goroutine scheduling (replaced by explicit schedule steps; the thorough tier runs free goroutines under -race and compares final states), gRPC transport, ACL filtering of event payloads (all tokens are allowed to read), snapshot-handler errors, publishCh capacity (64) and the snapshot-cache TTL timer (an explicit Evict step)",
+        "modelled, not verified: lock-free list memory ordering (atomic.Value), goroutine scheduling (replaced by explicit schedule steps; the thorough tier runs free goroutines under -race and compares final states), gRPC transport, ACL filtering of event payloads (all tokens are allowed to read), snapshot-handler errors, publishCh capacity (64) and the snapshot-cache TTL timer (an explicit Evict step); topicBuffer pointer identity is modelled by a counter",
         "hooks (build tag verif, add-only): stream.VerifPublishOne/VerifQueue/VerifQueued/VerifReady/VerifEvictSnapshot/VerifCloseTokens/VerifTopicBuffers, submatview.VerifMat (drives the real materializer.updateView/reset and the real handler state machine one event at a time)",
     ]
     assumptions = ["Raft indexes strictly increasing, index 1 never user data",
-                   "query index >= index of the last commit that changed the query's result (broken by the real connect query: known finding query-index-behind-content)",
-                   "events of a commit = change of the query results (broken by the real code for connect-native removal: known finding)",
-                   "restore with an empty publish queue and no surviving topic buffer (otherwise known findings restore-keeps-*)"]
+                   "query index >= index of the last commit that changed the query's result and <= the raft index (broken by the real connect query / rename fallback: open known finding query-index-behind-content)"]
     if not ok:
         cov.update({"evaluations": 0, "distinct_nontrivial": 0, "rule": "proof stage failed", "samples": []})
         return ctx.finish(cov, assumptions)
@@ -210,18 +207,17 @@ def run(ctx):
     per = 100
     shards = [cases[i:i + per] for i in range(0, len(cases), per)]
     res = run_shards(shards)
-    mism, breaks_step, breaks_ev, break_cases = [], 0, 0, []
+    mism, breaks_step, break_cases = [], 0, []
     for cs, (okk, trip, raw) in zip(shards, res):
         if not okk or len(trip) != len(cs):
             ctx.violation({"kind": "case-file-failed", "log": raw}, found_input=False)
             continue
-        for c, (d, a, b) in zip(cs, trip):
+        for c, (d, a) in zip(cs, trip):
             if d:
                 mism.append((c, d - 1))
             breaks_step += a
-            breaks_ev += b
-            if a or b:
-                break_cases.append((c, a, b))
+            if a:
+                break_cases.append((c, a))
 
     # ---- direct oracle on the implementation
     known_counts = collections.Counter()
@@ -234,17 +230,15 @@ def run(ctx):
                 ctx.known(kf, "%s cause=%s: %s" % (f["kind"], f["cause"], kf["what"]))
             else:
                 new_fail.append((c, f))
-    # an assumption of the theorems broken by the implementation's environment must be one of the recorded ones
-    for c, a, b in break_cases:
-        causes = {f["cause"] for f in c.get("fails") or []}
-        if b and not causes:
-            new_fail.append((c, {"kind": "assumption-break", "cause": "events_ok", "step": -1, "c": -1,
-                                 "msg": "a commit changed a query result without an event"}))
-        if a:
-            kf = vlib.match_known(PROP, {"kind": "assumption-break", "cause": "query-index-behind-content"})
-            if kf:
-                known_counts["assumption-break:query-index-behind-content"] += 1
-                ctx.known(kf, "assumption-break cause=query-index-behind-content: " + kf["what"])
+    # the assumption of the theorems (query index) broken by the implementation's environment: the recorded finding
+    for c, a in break_cases:
+        kf = vlib.match_known(PROP, {"kind": "assumption-break", "cause": "query-index-behind-content"})
+        if kf:
+            known_counts["assumption-break:query-index-behind-content"] += 1
+            ctx.known(kf, "assumption-break cause=query-index-behind-content: " + kf["what"])
+        else:
+            new_fail.append((c, {"kind": "assumption-break", "cause": "query-index-behind-content", "step": -1, "c": -1,
+                                 "msg": "the index a query reported does not cover a commit that touched its subject"}))
 
     seen = set()
     for c, f in new_fail:
@@ -331,7 +325,7 @@ def run(ctx):
         "traces_validated_against_impl": len(cases) - len(mism),
         "steps_executed": nsteps,
         "model_mismatches": len(mism),
-        "assumption_breaks_observed": {"step_ok": breaks_step, "events_ok": breaks_ev},
+        "assumption_breaks_observed": {"step_ok": breaks_step},
         "oracle_failures_known": dict(known_counts),
         "oracle_failures_unknown": len(new_fail),
         "generator_flavours": dict(gens),
